@@ -29,6 +29,10 @@ type C20Case struct {
 	Key     gen.BS              `json:"key"`
 	Value   string              `json:"value"`
 	Other   []map[string]gen.BS `json:"other,omitempty"` // labels of the other containers (select mode)
+	// Pipe (select mode): 0 - the bare selector; 1 - the label is renamed and the new name
+	// filtered on; 2 - only it is kept and filtered on; 3 - another label is dropped first. The
+	// container carrying k=v is selected all the same.
+	Pipe int `json:"pipe,omitempty"`
 }
 
 var validLabelRe = regexp.MustCompile(`^[A-Za-z_][A-Za-z0-9_]*$`)
@@ -132,6 +136,17 @@ func c20Check(c C20Case) (r evid.Result) {
 		r.Class(len(want) < len(d.Containers), "proper-subset")
 		r.Class(c.Value == "", "empty-value")
 		query := "{" + name + "=" + strconv.Quote(c.Value) + "}"
+		carried := name // the label the entries of id0 carry the value under
+		switch c.Pipe {
+		case 1:
+			query += " | label_format zz_renamed=" + name + " | zz_renamed=" + strconv.Quote(c.Value)
+			carried = "zz_renamed"
+		case 2:
+			query += " | keep " + name + " | " + name + "=" + strconv.Quote(c.Value)
+		case 3:
+			query += " | drop zz_nosuch | " + name + "=" + strconv.Quote(c.Value)
+		}
+		r.Class(c.Pipe != 0, "selector-plus-a-filter-behind-a-label-stage")
 		data, err := dl.Eval(d, query, dl.Params{Start: c20BaseTS - 3600e9, End: c20BaseTS + 3600e9, Step: 1e9, Limit: -1})
 		rep := d.Done()
 		if err != nil {
@@ -158,8 +173,8 @@ func c20Check(c C20Case) (r evid.Result) {
 			// The origin is read from the line: a Docker label may legitimately shadow container_id.
 			origin := strings.TrimSuffix(e.Line[strings.Index(e.Line, "<")+1:], ">")
 			seen[origin] = true
-			if origin == "id0" && e.Labels[name] != c.Value {
-				r.Violation = evid.Viol("C20/select-label-missing", "entry of container id0 carries %s=%q, want %q", name, e.Labels[name], c.Value)
+			if origin == "id0" && e.Labels[carried] != c.Value {
+				r.Violation = evid.Viol("C20/select-label-missing", "query %s: entry of container id0 carries %s=%q, want %q", query, carried, e.Labels[carried], c.Value)
 				return r
 			}
 		}
@@ -324,6 +339,9 @@ func c20Gen(t *rapid.T) C20Case {
 		}
 		name := refKeyToLabel(k)
 		c := C20Case{Mode: mode, Key: gen.BS(k), Value: c20GenValue(t)}
+		if !builtinContainerLabels[name] {
+			c.Pipe = rapid.SampledFrom([]int{0, 0, 0, 1, 2, 3}).Draw(t, "pipe")
+		}
 		n := rapid.IntRange(0, 3).Draw(t, "others")
 		for i := 0; i < n; i++ {
 			labels := map[string]gen.BS{}
